@@ -28,6 +28,16 @@ class ReturnEx(Exception):
         self.value = value
 
 
+class BreakEx(Exception):
+    def __init__(self, value=None):
+        Exception.__init__(self, "break")
+        self.value = value
+
+
+class ContinueEx(Exception):
+    pass
+
+
 class Trap(Exception):
     """the folded expression would panic (overflow / out of bounds / explicit panic)"""
     pass
@@ -214,7 +224,8 @@ def wrap(v, ty):
 
 
 class Folder:
-    def __init__(self, facts, env=None, lets=None, on_call=None, effects=False):
+    def __init__(self, facts, env=None, lets=None, on_call=None, effects=False, local_calls=0):
+        self.local_calls = local_calls  # fold calls to crate-local functions by folding their bodies (depth bound)
         self.effects = effects  # loop-free statement execution (let mut, assignment, early return)
         self.facts = facts
         self.env = dict(env or {})
@@ -352,6 +363,31 @@ class Folder:
             return None
         if k == "Return" and self.effects:
             raise ReturnEx(self.fold(e["value"]) if "value" in e else None)
+        if k == "Match" and e.get("source") == "ForLoopDesugar":
+            # a scan of a constant table / constant range: unrolled (bounded), nothing else is a loop we fold
+            fl = for_loop_parts(e)
+            if not fl or not self.effects:
+                raise Undecidable("loop")
+            items = self._iterable(self.fold(fl[0]))
+            if items is None or len(items) > 4096:
+                raise Undecidable("loop over a non-constant or too long sequence")
+            for item in items:
+                ok, binds = self._pat_match(fl[1], item)
+                if not ok:
+                    raise Undecidable("refutable loop pattern")
+                shadow = {n: self.env[n] for n in binds if n in self.env}
+                self.env.update(binds)
+                try:
+                    self.fold(fl[2])
+                except ContinueEx:
+                    pass
+                except BreakEx:
+                    break
+                finally:
+                    for n in binds:
+                        self.env.pop(n, None)
+                    self.env.update(shadow)
+            return None
         if k == "Match":
             if str(e.get("source", "")).startswith("TryDesugar"):
                 inner = e["scrut"]["args"][0]
@@ -397,6 +433,12 @@ class Folder:
             return tuple(self.fold(x) for x in e["fields"])
         if k == "Loop":
             raise Undecidable("loop")
+        if k == "Closure":
+            return {"__closure__": e["def"]}
+        if k == "Break" and self.effects:
+            raise BreakEx(self.fold(e["value"]) if "value" in e else None)
+        if k == "Continue" and self.effects:
+            raise ContinueEx()
         if k == "Array":
             return [self.fold(x) for x in e["fields"]]
         if k == "Call":
@@ -407,17 +449,110 @@ class Folder:
             r = self._builtin(e)
             if r is not NotImplemented:
                 return r
+            r = self._local_call(e)
+            if r is not NotImplemented:
+                return r
             callee = callee_of(e)
             if callee.startswith("core::panicking") or "panic" in callee.split("::")[-1]:
                 raise Trap("explicit panic at " + span_str(e["span"]))
             raise Undecidable("call to " + callee)
         raise Undecidable("expression kind " + k)
 
+    def _local_call(self, e):
+        if self.local_calls <= 0:
+            return NotImplemented
+        cc = canon(callee_of(e))
+        body = None
+        for n, b in self.facts.thir.items():
+            if canon(n) == cc:
+                body = b
+                break
+        if body is None or len(body["params"]) != len(e["args"]):
+            return NotImplemented
+        args = [self.fold(a) for a in e["args"]]
+        env = {}
+        sub = Folder(self.facts, env=env, on_call=self.on_call, effects=True, local_calls=self.local_calls - 1)
+        for p, v in zip(body["params"], args):
+            if not p.get("pat"):
+                raise Undecidable("parameter without pattern")
+            ok, b = sub._pat_match(p["pat"], v)
+            if not ok:
+                raise Undecidable("parameter pattern")
+            env.update(b)
+        sub.env = env
+        return sub.run(body["body"])
+
+    def _iterable(self, v):
+        if isinstance(v, list):
+            return v
+        if isinstance(v, dict) and v.get("__adt__") == "core::ops::Range" and isinstance(v.get("start"), int) and isinstance(v.get("end"), int):
+            return list(range(v["start"], v["end"])) if v["end"] - v["start"] <= 4096 else None
+        if isinstance(v, dict) and v.get("__adt__") == "core::ops::RangeInclusive" and isinstance(v.get("start"), int) and isinstance(v.get("end"), int):
+            return list(range(v["start"], v["end"] + 1)) if v["end"] - v["start"] <= 4096 else None
+        return None
+
+    def apply_closure(self, cl, args):
+        """apply a closure value to argument values: its body is folded with the parameters bound (captured variables
+        are read from the enclosing environment, which is still live for the adaptors modelled here)"""
+        if not (isinstance(cl, dict) and "__closure__" in cl):
+            raise Undecidable("not a closure")
+        cb = self.facts.thir.get(cl["__closure__"])
+        if cb is None:
+            raise Undecidable("closure body missing")
+        params = cb["params"][1:]
+        if len(params) != len(args):
+            raise Undecidable("closure arity")
+        binds = {}
+        for p, v in zip(params, args):
+            ok, b = self._pat_match(p["pat"], v)
+            if not ok:
+                raise Undecidable("closure parameter pattern")
+            binds.update(b)
+        shadow = {n: self.env[n] for n in binds if n in self.env}
+        self.env.update(binds)
+        try:
+            return self.fold(cb["body"])
+        except ReturnEx as r:
+            return r.value
+        finally:
+            for n in binds:
+                self.env.pop(n, None)
+            self.env.update(shadow)
+
     def _builtin(self, e):
         """models of a few pure core functions"""
         cc = canon(callee_of(e))
         last = cc.split("::")[-1]
         a = e["args"]
+        r = self._seq_builtin(cc, last, a, e)
+        if r is not NotImplemented:
+            return r
+
+        def ordering(c):
+            return {"__adt__": "core::cmp::Ordering", "__variant__": "Less" if c < 0 else "Greater" if c > 0 else "Equal"}
+
+        def plain(v):
+            return isinstance(v, (int, bool)) or (isinstance(v, tuple) and all(plain(x) for x in v))
+        if last in ("cmp", "partial_cmp") and len(a) == 2 and ("core::cmp::" in cc or cc.startswith("core::")):
+            x, y = self.fold(a[0]), self.fold(a[1])
+            if plain(x) and plain(y) and type(x) == type(y):
+                o = ordering((x > y) - (x < y))
+                return o if last == "cmp" else {"__adt__": "core::option::Option", "__variant__": "Some", "#0": o, "0": o}
+        if last in ("then_with", "then") and cc.startswith("core::cmp::Ordering") and len(a) == 2:
+            o = self.fold(a[0])
+            if isinstance(o, dict) and o.get("__adt__") == "core::cmp::Ordering":
+                if o["__variant__"] != "Equal":
+                    return o
+                nxt = self.fold(a[1])
+                return self.apply_closure(nxt, []) if last == "then_with" else nxt
+        if last == "reverse" and cc.startswith("core::cmp::Ordering") and len(a) == 1:
+            o = self.fold(a[0])
+            if isinstance(o, dict) and o.get("__adt__") == "core::cmp::Ordering":
+                return dict(o, __variant__={"Less": "Greater", "Greater": "Less", "Equal": "Equal"}[o["__variant__"]])
+        if last in ("max", "min") and len(a) == 2 and cc.startswith("core::cmp::"):
+            x, y = self.fold(a[0]), self.fold(a[1])
+            if plain(x) and plain(y):
+                return (max if last == "max" else min)(x, y)
 
         def opt(v):
             if v is None:
@@ -455,6 +590,80 @@ class Folder:
                 v = self.fold(a[0])
                 if isinstance(v, int):
                     return v
+        return NotImplemented
+
+    def _seq_builtin(self, cc, last, a, e):
+        """finite-sequence adaptors over constant tables (a list) and the Option/Result plumbing around them"""
+        def opt(v, some=True):
+            if not some:
+                return {"__adt__": "core::option::Option", "__variant__": "None"}
+            return {"__adt__": "core::option::Option", "__variant__": "Some", "#0": v, "0": v}
+        if not a:
+            return NotImplemented
+        if last in ("iter", "into_iter", "copied", "cloned", "as_slice", "as_ref", "deref", "by_ref") and len(a) == 1:
+            v = self.fold(a[0])
+            if isinstance(v, list) or (self._iterable(v) is not None and last in ("into_iter", "by_ref")):
+                return v
+            return NotImplemented
+        if last in ("unwrap", "expect") and cc.startswith(("core::option::Option", "core::result::Result")):
+            v = self.fold(a[0])
+            if isinstance(v, dict) and v.get("__variant__") in ("Some", "Ok"):
+                return v.get("#0")
+            if isinstance(v, dict) and v.get("__variant__") in ("None", "Err"):
+                raise Trap("unwrap/expect on %s at %s" % (v["__variant__"], span_str(e["span"])))
+            return NotImplemented
+        if last in ("find", "position", "any", "all", "map", "filter", "rev", "len", "count", "skip", "take", "last", "next_back",
+                    "contains", "first", "nth", "enumerate", "is_empty", "get", "find_map"):
+            v = self.fold(a[0])
+            seq = self._iterable(v)
+            if seq is None:
+                return NotImplemented
+            if last in ("len", "count") and len(a) == 1:
+                return len(seq)
+            if last == "is_empty" and len(a) == 1:
+                return not seq
+            if last == "rev" and len(a) == 1:
+                return list(reversed(seq))
+            if last == "enumerate" and len(a) == 1:
+                return [(i, x) for i, x in enumerate(seq)]
+            if last in ("last", "next_back") and len(a) == 1:
+                return opt(seq[-1]) if seq else opt(None, False)
+            if last == "first" and len(a) == 1:
+                return opt(seq[0]) if seq else opt(None, False)
+            if len(a) != 2:
+                return NotImplemented
+            arg = self.fold(a[1])
+            if last in ("skip", "take") and isinstance(arg, int):
+                return seq[arg:] if last == "skip" else seq[:arg]
+            if last in ("nth", "get") and isinstance(arg, int):
+                return opt(seq[arg]) if 0 <= arg < len(seq) else opt(None, False)
+            if last == "contains":
+                return arg in seq
+            if isinstance(arg, dict) and "__closure__" in arg:
+                if last == "find":
+                    for x in seq:
+                        if self.apply_closure(arg, [x]):
+                            return opt(x)
+                    return opt(None, False)
+                if last == "find_map":
+                    for x in seq:
+                        r = self.apply_closure(arg, [x])
+                        if isinstance(r, dict) and r.get("__variant__") == "Some":
+                            return r
+                    return opt(None, False)
+                if last == "position":
+                    for i, x in enumerate(seq):
+                        if self.apply_closure(arg, [x]):
+                            return opt(i)
+                    return opt(None, False)
+                if last == "any":
+                    return any(self.apply_closure(arg, [x]) for x in seq)
+                if last == "all":
+                    return all(self.apply_closure(arg, [x]) for x in seq)
+                if last == "map":
+                    return [self.apply_closure(arg, [x]) for x in seq]
+                if last == "filter":
+                    return [x for x in seq if self.apply_closure(arg, [x])]
         return NotImplemented
 
     def run(self, body):
@@ -599,6 +808,41 @@ import re as _re
 _GEN = _re.compile(r"::<[^<>]*(?:<[^<>]*(?:<[^<>]*>[^<>]*)*>[^<>]*)*>")
 
 
+ADT_FIELDS = {}
+
+
+def register_adts(adts):
+    """field names of the crate's structs, for turning destructuring lets into field projections"""
+    for name, a in adts.items():
+        if a.get("kind") == "Struct" and a.get("variants"):
+            ADT_FIELDS[canon(name)] = [f["name"] for f in a["variants"][0]["fieldtys"]]
+
+
+def destructure(pat, init, out):
+    """irrefutable struct / tuple pattern with plain immutable bindings: name -> synthetic Field projection of init.
+    Returns False when the pattern has anything else (then nothing may be inlined)."""
+    k = pat.get("k")
+    if k == "Wild":
+        return True
+    if k == "Bind":
+        if "sub" in pat or is_mut_binding(pat) or "ref" in str(pat.get("mode", "")).lower():
+            return False
+        out[pat["name"]] = init
+        return True
+    if k == "Deref":
+        return destructure(pat["sub"], init, out)
+    if k == "Leaf":
+        names = ADT_FIELDS.get(canon(str(pat.get("ty", "")).lstrip("&").replace("mut ", "").strip()))
+        for fp in pat["fields"]:
+            i = fp["f"]
+            fname = names[i] if names and i < len(names) else str(i)
+            node = {"k": "Field", "lhs": init, "field": fname, "idx": i, "span": init.get("span"), "ty": fp["pat"].get("ty", "?")}
+            if not destructure(fp["pat"], node, out):
+                return False
+        return True
+    return False
+
+
 def canon(path):
     """strip generic arguments from a def path"""
     prev = None
@@ -606,6 +850,108 @@ def canon(path):
         prev = path
         path = _GEN.sub("", path)
     return path
+
+
+# ---- explicit spellings of `?` -------------------------------------------------------------------
+
+def _variant_pat(p):
+    """(variant name, bound name | None | '()') of `Ok(v)`, `Err(e)`, `Some(v)`, `None`, `Ok(())`, `Err(_)`"""
+    while p.get("k") == "Deref":
+        p = p["sub"]
+    if p.get("k") != "Variant" or p.get("variant") not in ("Ok", "Err", "Some", "None"):
+        return None
+    if not p["fields"]:
+        return (p["variant"], None)
+    if len(p["fields"]) != 1:
+        return None
+    q = p["fields"][0]["pat"]
+    if q.get("k") == "Bind" and "sub" not in q:
+        return (p["variant"], q["name"])
+    if q.get("k") == "Wild" or (q.get("k") == "Leaf" and not q["fields"]):
+        return (p["variant"], "()" if q.get("k") == "Leaf" else None)
+    return None
+
+
+def _is_unit(e):
+    e = strip(e)
+    return (e.get("k") == "Block" and not e.get("stmts") and "expr" not in e) or (e.get("k") == "Tuple" and not e["fields"])
+
+
+def _returned(e):
+    """the value node if `e` is `return v` (possibly wrapped in a block with nothing else), else None"""
+    e = strip(e)
+    if e.get("k") == "Block" and "expr" not in e and len(e.get("stmts", [])) == 1 and e["stmts"][0]["k"] != "Let":
+        e = strip(e["stmts"][0]["expr"])
+    if e.get("k") == "Return" and "value" in e:
+        return strip(e["value"])
+    if e.get("k") == "Return":
+        return {"k": "BareReturn"}
+    return None
+
+
+def _passes_error(ret, name):
+    """ret is `Err(name)`, `Err(name.into())`, `Err(From::from(name))` or `None`"""
+    if ret.get("k") == "Adt" and ret.get("variant") == "None":
+        return name is None
+    if ret.get("k") == "BareReturn":
+        return name is None
+    if ret.get("k") != "Adt" or ret.get("variant") != "Err" or name is None:
+        return False
+    v = strip(ret["fields"][0]["expr"])
+    if v.get("k") == "Call" and canon(callee_of(v)).split("::")[-1] in ("into", "from") and len(v["args"]) == 1:
+        v = strip(v["args"][0])
+    return v.get("k") in ("Var", "Upvar") and v["name"] == name
+
+
+def try_like(scrut, good, good_body, bad, bad_body, lets, depth=40):
+    """`match X { Ok(v) => v, Err(e) => return Err(e) }` and its Option / unit / fresh-error variants, as the sx of the
+    equivalent `?` expression; None if the two arms are anything else"""
+    g, b = _variant_pat(good), _variant_pat(bad)
+    if not g or not b or (g[0], b[0]) not in (("Ok", "Err"), ("Some", "None")):
+        return None
+    if good_body is not None:
+        gb = strip(good_body)
+        if not ((gb.get("k") in ("Var", "Upvar") and gb["name"] == g[1]) or (g[1] in ("()", None) and _is_unit(gb))):
+            return None
+    ret = _returned(bad_body)
+    if ret is None:
+        if (g[0], b[0]) == ("Some", "None") and good_body is not None and g[1] not in (None, "()") and _inlinable(bad_body):
+            # match X { Some(v) => v, None => D }  ==  X.unwrap_or(D)
+            return ("call", "core::option::Option::unwrap_or", (sx(scrut, lets, depth - 1), sx(bad_body, lets, depth - 1)))
+        return None
+    x = sx(scrut, lets, depth - 1)
+    if _passes_error(ret, b[1]):
+        return ("try", x)
+    if ret.get("k") == "Adt" and ret.get("variant") == "Err" and b[1] is None:
+        err = sx(ret["fields"][0]["expr"], lets, depth - 1)
+        if g[0] == "Some":
+            return ("try", ("call", "core::option::Option::ok_or", (x, err)))
+        return ("try", ("call", "core::result::Result::map_err", (x, ("const_fn", err))))
+    return None
+
+
+def match_as_try(e, lets, depth=40):
+    """Match / if-let node that spells `?` by hand -> ('try', ..) else None"""
+    if e.get("k") == "Match" and len(e["arms"]) == 2 and not any("guard" in a for a in e["arms"]):
+        a0, a1 = e["arms"]
+        for good, bad in ((a0, a1), (a1, a0)):
+            r = try_like(e["scrut"], good["pat"], good["body"], bad["pat"], bad["body"], lets, depth)
+            if r is not None:
+                return r
+        return None
+    if e.get("k") == "If" and e["cond"].get("k") == "Let":
+        vp = _variant_pat(e["cond"]["pat"])
+        if not vp:
+            return None
+        X = e["cond"]["expr"]
+        if vp[0] in ("Err", "None") and "else" not in e:
+            # if let Err(e) = X { return Err(e) }      (value position: unit)
+            other = {"k": "Variant", "variant": "Ok" if vp[0] == "Err" else "Some", "fields": [{"f": 0, "pat": {"k": "Wild"}}]}
+            return try_like(X, other, None, e["cond"]["pat"], e["then"], lets, depth)
+        if vp[0] in ("Ok", "Some") and "else" in e:
+            other = {"k": "Variant", "variant": "Err" if vp[0] == "Ok" else "None", "fields": [{"f": 0, "pat": {"k": "Wild"}}] if vp[0] == "Ok" else []}
+            return try_like(X, e["cond"]["pat"], e["then"], other, e["else"], lets, depth)
+    return None
 
 
 def sx(e, lets=None, depth=40):
@@ -648,6 +994,15 @@ def sx(e, lets=None, depth=40):
     if k == "Call":
         return ("call", canon(callee_of(e)), tuple(sx(a, lets, depth - 1) for a in e["args"]))
     if k == "Field":
+        base = strip(e["lhs"])
+        while base.get("k") in ("Var", "Upvar") and base["name"] in lets:
+            base = strip(lets[base["name"]])
+        if base.get("k") == "Tuple" and e.get("idx") is not None and e["idx"] < len(base["fields"]):
+            return sx(base["fields"][e["idx"]], lets, depth - 1)
+        if base.get("k") == "Adt" and "base" not in base:
+            for f in base["fields"]:
+                if f["idx"] == e.get("idx"):
+                    return sx(f["expr"], lets, depth - 1)
         return ("field", sx(e["lhs"], lets, depth - 1), e["field"])
     if k == "Binary":
         return ("bin", e["op"], sx(e["lhs"], lets, depth - 1), sx(e["rhs"], lets, depth - 1))
@@ -669,6 +1024,11 @@ def sx(e, lets=None, depth=40):
         return ("tuple", tuple(sx(a, lets, depth - 1) for a in e["fields"]))
     if k == "Array":
         return ("array", tuple(sx(a, lets, depth - 1) for a in e["fields"]))
+    if k == "If" and e["cond"].get("k") == "Let":
+        t = match_as_try(e, lets, depth)
+        if t is not None:
+            return t
+        return ("opaque", "IfLet", span_str(e["span"]))
     if k == "If":
         return ("if", sx(e["cond"], lets, depth - 1), sx(e["then"], lets, depth - 1),
                 sx(e["else"], lets, depth - 1) if "else" in e else None)
@@ -679,6 +1039,9 @@ def sx(e, lets=None, depth=40):
     if k == "Match":
         if str(e.get("source", "")).startswith("TryDesugar"):
             return ("try", sx(e["scrut"]["args"][0], lets, depth - 1))
+        t = match_as_try(e, lets, depth)
+        if t is not None:
+            return t
         return ("match", sx(e["scrut"], lets, depth - 1),
                 tuple((_pat_desc(a["pat"]), sx(a["body"], lets, depth - 1)) for a in e["arms"]), span_str(e["span"]))
     return ("opaque", k, span_str(e["span"]))
@@ -800,15 +1163,31 @@ def stmts(e, lets=None):
                     out.append(("let", p["name"], mut, sx(st["init"], lets), span_str(st["span"])))
                 else:
                     init = sx(st["init"], lets) if "init" in st else None
+                    if "init" in st and "else" not in st and not lets.get("__noinline__") and _inlinable(st["init"]):
+                        d = {}
+                        if destructure(p, st["init"], d):
+                            lets.update(d)
+                    if "else" in st and "init" in st:
+                        vp = _variant_pat(p)
+                        els = st["else"][0] if isinstance(st["else"], list) and len(st["else"]) == 1 else st["else"] if isinstance(st["else"], dict) else None
+                        if vp and vp[0] in ("Ok", "Some") and vp[1] not in (None, "()") and els is not None:
+                            other = {"k": "Variant", "variant": "Err" if vp[0] == "Ok" else "None", "fields": [{"f": 0, "pat": {"k": "Wild"}}] if vp[0] == "Ok" else []}
+                            t = try_like(st["init"], p, None, other, els, lets)
+                            if t is not None:
+                                q = p
+                                while q.get("k") == "Deref":
+                                    q = q["sub"]
+                                out.append(("let", vp[1], is_mut_binding(q["fields"][0]["pat"]), t, span_str(st["span"])))
+                                continue
                     out.append(("letpat", pat_names(p), init, span_str(st["span"]), p))
                     if "else" in st:
-                        for x in st["else"]:
+                        for x in (st["else"] if isinstance(st["else"], list) else [st["else"]]):
                             out.append(("letelse", stmts(x, lets)))
             else:
                 out.extend(stmts(st["expr"], lets))
         if "expr" in e:
             out.extend(stmts(e["expr"], lets))
-        return out
+        return out if lets.get("__noinline__") else _forward_single_use(out)
     if k == "Match":
         if str(e.get("source", "")).startswith("TryDesugar"):
             return [("expr", sx(e, lets), sp)]
@@ -816,10 +1195,17 @@ def stmts(e, lets=None):
         if fl:
             it, pat, body = fl
             return [("for", pat_names(pat), sx(it, lets), stmts(body, lets), sp)]
+        t = match_as_try(e, lets)
+        if t is not None:
+            return [("expr", t, sp)]
         arms = []
         for a in e["arms"]:
             arms.append((a["pat"], stmts(a["body"], lets), sx(a["guard"], lets) if "guard" in a else None))
         return [("match", sx(e["scrut"], lets), arms, sp)]
+    if k == "If" and e["cond"]["k"] == "Let":
+        t = match_as_try(e, lets)
+        if t is not None:
+            return [("expr", t, sp)]
     if k == "If":
         return [("if", sx(e["cond"], lets) if e["cond"]["k"] != "Let" else ("iflet", sx(e["cond"]["expr"], lets), tuple(pat_names(e["cond"]["pat"])), _pat_desc(e["cond"]["pat"])),
                  stmts(e["then"], lets), stmts(e["else"], lets) if "else" in e else [], sp)]
@@ -836,6 +1222,46 @@ def stmts(e, lets=None):
     if k == "Continue":
         return [("continue", sp)]
     return [("expr", sx(e, lets), sp)]
+
+
+def _count_var(t, name):
+    if isinstance(t, tuple):
+        if len(t) == 3 and t[0] == "var" and t[2] == name:
+            return 1
+        return sum(_count_var(x, name) for x in t)
+    if isinstance(t, list):
+        return sum(_count_var(x, name) for x in t)
+    return 0
+
+
+def _subst_var(t, name, val):
+    if isinstance(t, tuple):
+        if len(t) == 3 and t[0] == "var" and t[2] == name:
+            return val
+        return tuple(_subst_var(x, name, val) for x in t)
+    return t
+
+
+def _forward_single_use(out):
+    """`let r = f(&mut a); match r {..}`: an immutable binding that could not be inlined (its initialiser has an effect)
+    and is used exactly once, in the head of the very next statement, is forwarded to that use"""
+    i = 0
+    while i < len(out) - 1:
+        s, nxt = out[i], out[i + 1]
+        if s[0] == "let" and not s[2] and nxt[0] in ("let", "expr", "return", "match", "if", "assign", "assignop", "for"):
+            name = s[1]
+            heads = stmt_exprs(nxt)
+            if sum(_count_var(h, name) for h in heads) == 1 and _count_var(out[i + 1:], name) == 1 \
+                    and not (nxt[0] == "if" and isinstance(nxt[1], tuple) and nxt[1] and nxt[1][0] == "iflet" and False):
+                lst = list(nxt)
+                for j, x in enumerate(lst):
+                    if isinstance(x, tuple) and any(x is h for h in heads):
+                        lst[j] = _subst_var(x, name, s[3])
+                out[i + 1] = tuple(lst)
+                del out[i]
+                continue
+        i += 1
+    return out
 
 
 def _inlinable(init):
@@ -907,6 +1333,35 @@ def fn_stmts(facts, name):
     return stmts(b["body"], lets), lets
 
 
+def local_callees(facts, sts):
+    """names of crate-local functions (bodies present in the THIR facts) called anywhere in the statements"""
+    by_canon = {canon(n): n for n in facts.thir}
+    out = []
+    for st in stmt_walk(sts):
+        for e in stmt_exprs(st):
+            for x in sx_walk(e):
+                if isinstance(x, tuple) and x and x[0] == "call" and x[1] in by_canon and by_canon[x[1]] not in out:
+                    out.append(by_canon[x[1]])
+    return out
+
+
+def fn_stmts_deep(facts, name, depth=2, only=None):
+    """[(fn name, statements)] of `name` and of the crate-local helpers it calls (transitively, bounded); `only` filters helpers"""
+    seen, todo, out = {name}, [(name, depth)], []
+    while todo:
+        n, d = todo.pop(0)
+        sts, _ = fn_stmts(facts, n)
+        if sts is None:
+            continue
+        out.append((n, sts))
+        if d > 0:
+            for c in local_callees(facts, sts):
+                if c not in seen and (only is None or only(c)):
+                    seen.add(c)
+                    todo.append((c, d - 1))
+    return out
+
+
 # ---- polynomial normal form for index arithmetic -----------------------------------------------
 
 def poly(e, atom):
@@ -969,6 +1424,43 @@ def inline_pure_helper(facts, e, depth=2):
             return mapping[t[2]]
         return tuple(subst(x) if isinstance(x, tuple) else x for x in t)
     return inline_pure_helper(facts, subst(bx), depth - 1)
+
+
+def subst_sx(t, mapping):
+    """replace variables (by unique name) in an sx tree"""
+    if not isinstance(t, tuple):
+        return t
+    if len(t) == 3 and t[0] == "var" and t[2] in mapping:
+        return mapping[t[2]]
+    return tuple(subst_sx(x, mapping) if isinstance(x, tuple) else x for x in t)
+
+
+def closure_body_sx(facts, cdef):
+    """(parameter unique names, body sx) of a closure"""
+    cb = facts.thir.get(cdef)
+    if cb is None:
+        return None
+    names = []
+    for p in cb["params"][1:]:
+        pat = p.get("pat") or {}
+        while pat.get("k") == "Deref":
+            pat = pat["sub"]
+        if pat.get("k") != "Bind" or "sub" in pat:
+            return None
+        names.append(pat["name"])
+    return names, sx(cb["body"], let_env(cb["body"]))
+
+
+def beta(facts, t):
+    """beta-reduce applications of closure literals: Fn::call(|p| body, (arg,)) -> body[p := arg]"""
+    def red(n):
+        if n[0] == "call" and n[1].split("::")[-1] in ("call", "call_mut", "call_once") and "ops::function::Fn" in n[1] + "ops::function::Fn" \
+                and len(n[2]) == 2 and n[2][0][0] == "closure" and n[2][1][0] == "tuple":
+            cb = closure_body_sx(facts, n[2][0][1])
+            if cb and len(cb[0]) == len(n[2][1][1]):
+                return subst_sx(cb[1], dict(zip(cb[0], n[2][1][1])))
+        return n
+    return map_sx(t, red)
 
 
 def map_sx(t, fn):
